@@ -17,6 +17,16 @@ package mqtt
 //@ guard signaller.chSubAck by mu
 //@ guard signaller.chUnsubAck by mu
 
+// ---- channel invariants (rely/guarantee): waiter channels carry non-nil packets and are never closed.
+// Guarantee side: obligation chan.nonnil at every send, chan.neverclosed at every close.
+//@ chan *pktConnAck nonnil neverclosed
+//@ chan *pktPingResp nonnil neverclosed
+//@ chan *pktPubAck nonnil neverclosed
+//@ chan *pktPubRec nonnil neverclosed
+//@ chan *pktPubComp nonnil neverclosed
+//@ chan *pktSubAck nonnil neverclosed
+//@ chan *pktUnsubAck nonnil neverclosed
+
 //@ spec
 //@ // ---- inbound flows, MQTT 3.1.1 section 4.3 (receiver side) ----
 //@ // the packet read in the current iteration of the serve loop
@@ -186,24 +196,24 @@ package mqtt
 //@        evCount("(*signaller).PubAck") == 1 && evArg[uint16]("(*signaller).PubAck", 0, 1) == evRet[*pktPubAck]("(*pktPubAck).Parse", 0, 0).ID &&
 //@        evCount("select") == ite(evRet[bool]("(*signaller).PubAck", 0, 1), 1, 0) && evCount("send") == 0 &&
 //@        (evCount("select") == 1 ==> evArg[chan *pktPubAck]("select", 0, 0) == evRet[chan *pktPubAck]("(*signaller).PubAck", 0, 0) &&
-//@             (evRet[int]("select", 0, 0) == 0 ==> evRet[*pktPubAck]("select", 0, 1) == evRet[*pktPubAck]("(*pktPubAck).Parse", 0, 0)))
+//@             (evRet[int]("select", 0, 0) == 0 ==> evArg[*pktPubAck]("select", 0, 1) == evRet[*pktPubAck]("(*pktPubAck).Parse", 0, 0)))
 //@   loop 1 iter[C07] ack_pubrec: itRead() && itType() == packetPubRec ==>
 //@        evCount("(*signaller).PubRec") == 1 && evArg[uint16]("(*signaller).PubRec", 0, 1) == evRet[*pktPubRec]("(*pktPubRec).Parse", 0, 0).ID &&
 //@        evCount("select") == ite(evRet[bool]("(*signaller).PubRec", 0, 1), 1, 0) && evCount("send") == 0 &&
 //@        (evCount("select") == 1 ==> evArg[chan *pktPubRec]("select", 0, 0) == evRet[chan *pktPubRec]("(*signaller).PubRec", 0, 0) &&
-//@             (evRet[int]("select", 0, 0) == 0 ==> evRet[*pktPubRec]("select", 0, 1) == evRet[*pktPubRec]("(*pktPubRec).Parse", 0, 0)))
+//@             (evRet[int]("select", 0, 0) == 0 ==> evArg[*pktPubRec]("select", 0, 1) == evRet[*pktPubRec]("(*pktPubRec).Parse", 0, 0)))
 //@   loop 1 iter[C07] ack_pubcomp: itRead() && itType() == packetPubComp ==>
 //@        evCount("(*signaller).PubComp") == 1 && evArg[uint16]("(*signaller).PubComp", 0, 1) == evRet[*pktPubComp]("(*pktPubComp).Parse", 0, 0).ID &&
 //@        evCount("select") == ite(evRet[bool]("(*signaller).PubComp", 0, 1), 1, 0) && evCount("send") == 0 &&
 //@        (evCount("select") == 1 ==> evArg[chan *pktPubComp]("select", 0, 0) == evRet[chan *pktPubComp]("(*signaller).PubComp", 0, 0) &&
-//@             (evRet[int]("select", 0, 0) == 0 ==> evRet[*pktPubComp]("select", 0, 1) == evRet[*pktPubComp]("(*pktPubComp).Parse", 0, 0)))
+//@             (evRet[int]("select", 0, 0) == 0 ==> evArg[*pktPubComp]("select", 0, 1) == evRet[*pktPubComp]("(*pktPubComp).Parse", 0, 0)))
 //@   loop 1 iter[C07] ack_suback: itRead() && itType() == packetSubAck ==>
 //@        evCount("(*signaller).SubAck") == 1 && evArg[uint16]("(*signaller).SubAck", 0, 1) == evRet[*pktSubAck]("(*pktSubAck).Parse", 0, 0).ID &&
 //@        evCount("select") == ite(evRet[bool]("(*signaller).SubAck", 0, 1), 1, 0) && evCount("send") == 0 &&
 //@        (evCount("select") == 1 ==> evArg[chan *pktSubAck]("select", 0, 0) == evRet[chan *pktSubAck]("(*signaller).SubAck", 0, 0) &&
-//@             (evRet[int]("select", 0, 0) == 0 ==> evRet[*pktSubAck]("select", 0, 1) == evRet[*pktSubAck]("(*pktSubAck).Parse", 0, 0)))
+//@             (evRet[int]("select", 0, 0) == 0 ==> evArg[*pktSubAck]("select", 0, 1) == evRet[*pktSubAck]("(*pktSubAck).Parse", 0, 0)))
 //@   loop 1 iter[C07] ack_unsuback: itRead() && itType() == packetUnsubAck ==>
 //@        evCount("(*signaller).UnsubAck") == 1 && evArg[uint16]("(*signaller).UnsubAck", 0, 1) == evRet[*pktUnsubAck]("(*pktUnsubAck).Parse", 0, 0).ID &&
 //@        evCount("select") == ite(evRet[bool]("(*signaller).UnsubAck", 0, 1), 1, 0) && evCount("send") == 0 &&
 //@        (evCount("select") == 1 ==> evArg[chan *pktUnsubAck]("select", 0, 0) == evRet[chan *pktUnsubAck]("(*signaller).UnsubAck", 0, 0) &&
-//@             (evRet[int]("select", 0, 0) == 0 ==> evRet[*pktUnsubAck]("select", 0, 1) == evRet[*pktUnsubAck]("(*pktUnsubAck).Parse", 0, 0)))
+//@             (evRet[int]("select", 0, 0) == 0 ==> evArg[*pktUnsubAck]("select", 0, 1) == evRet[*pktUnsubAck]("(*pktUnsubAck).Parse", 0, 0)))
